@@ -5,3 +5,200 @@ From IBL.C17 Require Import Model Proofs.
 From IBL.C03 Require Import Model RtLib.
 Import ListNotations.
 Open Scope Z_scope.
+
+(* ------------------------------------------------------------------ *)
+(* list slicing                                                        *)
+(* ------------------------------------------------------------------ *)
+Section Slices.
+Context {A : Type}.
+Implicit Types l : list A.
+
+Lemma firstn_add a : forall b l, firstn (a + b) l = firstn a l ++ firstn b (skipn a l).
+Proof.
+  induction a as [|a IH]; intros b l; [reflexivity|].
+  destruct l as [|x l]; cbn [Nat.add firstn skipn app].
+  - now rewrite firstn_nil.
+  - now rewrite IH.
+Qed.
+
+Lemma skipn_skipn' a : forall b l, skipn a (skipn b l) = skipn (b + a) l.
+Proof.
+  intros b; revert a. induction b as [|b IH]; intros a l; [reflexivity|].
+  destruct l as [|x l]; cbn [skipn Nat.add]; [now rewrite skipn_nil | apply IH].
+Qed.
+
+Lemma slice_nat_app l i j k : (i <= j <= k)%nat ->
+  slice_nat i j l ++ slice_nat j k l = slice_nat i k l.
+Proof.
+  intros H. unfold slice_nat.
+  replace (k - i)%nat with ((j - i) + (k - j))%nat by lia.
+  rewrite firstn_add, skipn_skipn'. repeat f_equal. lia.
+Qed.
+
+Lemma slice_of_slice l f e i j : (i <= j)%nat -> (f + j <= e)%nat ->
+  slice_nat i j (slice_nat f e l) = slice_nat (f + i) (f + j) l.
+Proof.
+  intros Hij Hje. unfold slice_nat.
+  rewrite skipn_firstn_comm, firstn_firstn, skipn_skipn'.
+  replace (Nat.min (j - i) (e - f - i)) with (j - i)%nat by lia.
+  replace (f + j - (f + i))%nat with (j - i)%nat by lia.
+  reflexivity.
+Qed.
+
+Lemma slice_nat_length l i j : (i <= j <= length l)%nat -> length (slice_nat i j l) = (j - i)%nat.
+Proof. intros H. unfold slice_nat. rewrite firstn_length, skipn_length. lia. Qed.
+
+Lemma slice_nat_0 l j : slice_nat 0 j l = firstn j l.
+Proof. unfold slice_nat. now rewrite Nat.sub_0_r. Qed.
+
+Lemma pyslice_nat l a b : 0 <= a -> 0 <= b ->
+  pyslice a b l = slice_nat (Z.to_nat (Z.min a (Z.of_nat (length l))))
+                            (Z.to_nat (Z.min b (Z.of_nat (length l)))) l.
+Proof.
+  intros Ha Hb. unfold pyslice, adj.
+  destruct (a <? 0) eqn:Ea; [lia|]. destruct (b <? 0) eqn:Eb; [lia|]. reflexivity.
+Qed.
+End Slices.
+
+Lemma slice_nat_map {A B} (f : A -> B) l i j : slice_nat i j (map f l) = map f (slice_nat i j l).
+Proof. unfold slice_nat. now rewrite skipn_map, firstn_map. Qed.
+
+Lemma pyslice_map {A B} (f : A -> B) l a b : pyslice a b (map f l) = map f (pyslice a b l).
+Proof. unfold pyslice. now rewrite map_length, slice_nat_map. Qed.
+
+(* ------------------------------------------------------------------ *)
+(* kept ranges of the windows tile [0, ns); the kept rows are the data  *)
+(* ------------------------------------------------------------------ *)
+Section Rows.
+Variables ns W : Z.
+Hypothesis Hns : 1 <= ns.
+Hypothesis HW : 576 < W.
+Set Default Proof Using "Hns HW".
+
+Local Notation K := (lastk ns W 576).
+Local Notation s := (stride W 576).
+Local Notation vf := (vfirst W 576).
+Local Notation vl := (vlast ns W 576).
+
+Lemma Hov : 0 <= 576 < W. Proof. lia. Qed.
+Lemma Hev : 576 mod 2 = 0. Proof. reflexivity. Qed.
+
+Lemma vf_eq k : vf k = if k =? 0 then 0 else k * s + 288.
+Proof. reflexivity. Qed.
+Lemma vl_eq k : vl k = if k =? K then ns else k * s + W - 288.
+Proof. reflexivity. Qed.
+
+(* closed form of `kept` on window k *)
+Lemma kept_closed k : 0 <= k <= K ->
+  kept ns W (win ns W 576 k) k = (vf k, vl k).
+Proof.
+  intros Hk. unfold kept, win, ind2save, OVERLAP, MARGIN.
+  rewrite (nwin_K ns W 576 Hns Hov).
+  pose proof (K_reaches ns W 576 Hns Hov) as HKr.
+  pose proof (last_len_le ns W 576 Hns Hov) as Hle.
+  rewrite vf_eq, vl_eq. fold s.
+  replace (k =? K + 1 - 1) with (k =? K) by (f_equal; lia).
+  assert (Hs : s = W - 576) by reflexivity.
+  destruct (Z.eqb_spec k 0) as [E0|E0]; destruct (Z.eqb_spec k K) as [EK|EK]; unfold adj.
+  - subst k. rewrite <- EK in *.
+    replace (Z.min (0 * s + W) ns) with ns by lia.
+    destruct (0 <? 0) eqn:A; [lia|]. destruct (W <? 0) eqn:B; [lia|]. f_equal; lia.
+  - pose proof (before_K_short ns W 576 Hns Hov k ltac:(lia)).
+    subst k. replace (Z.min (0 * s + W) ns) with (0 * s + W) by lia.
+    destruct (0 <? 0) eqn:A; [lia|]. destruct (W - 288 <? 0) eqn:B; [lia|]. f_equal; lia.
+  - subst k. pose proof (last_len_gt_ov ns W 576 Hns Hov ltac:(lia)).
+    replace (Z.min (K * s + W) ns) with ns by lia.
+    destruct (288 <? 0) eqn:A; [lia|]. destruct (W <? 0) eqn:B; [lia|]. f_equal; lia.
+  - pose proof (before_K_short ns W 576 Hns Hov k ltac:(lia)).
+    replace (Z.min (k * s + W) ns) with (k * s + W) by lia.
+    destruct (288 <? 0) eqn:A; [lia|]. destruct (W - 288 <? 0) eqn:B; [lia|]. f_equal; lia.
+Qed.
+
+(* the tiling facts (C17's valid sub-windows with overlap/2 = 288) *)
+Lemma kept_first : vf 0 = 0. Proof. reflexivity. Qed.
+Lemma kept_last : vl K = ns. Proof. exact (vlast_K ns W 576 Hns Hov Hev). Qed.
+Lemma kept_adjacent k : 0 <= k < K -> vl k = vf (k + 1).
+Proof. exact (valid_adjacent ns W 576 Hns Hov Hev k). Qed.
+Lemma kept_nonempty k : 0 <= k <= K -> vf k < vl k.
+Proof. exact (valid_nonempty ns W 576 Hns Hov Hev k). Qed.
+Lemma kept_bounds k : 0 <= k <= K -> 0 <= vf k /\ vl k <= ns.
+Proof.
+  intros Hk. pose proof (valid_inside ns W 576 Hns Hov Hev k Hk) as [H1 H2].
+  pose proof (K_reaches ns W 576 Hns Hov).
+  unfold win in *; cbn [fst snd] in *. fold s in H1, H2.
+  assert (0 < s) by (unfold stride; lia). split; [nia | lia].
+Qed.
+
+Section Data.
+Variable conv : row -> row.
+Variable data : list row.
+Hypothesis Hlen : ns <= Z.of_nat (length data).
+Set Default Proof Using "Hns HW Hlen".
+
+Definition kslice (k : Z) : list row := slice_nat (Z.to_nat (vf k)) (Z.to_nat (vl k)) data.
+
+Lemma window_kept k : 0 <= k <= K ->
+  save_window conv W (nwin ns W OVERLAP) k
+     (pyslice (fst (win ns W 576 k)) (snd (win ns W 576 k)) data) = map conv (kslice k).
+Proof.
+  intros Hk. unfold save_window.
+  pose proof (kept_closed k Hk) as HC. unfold kept in HC.
+  destruct (ind2save W (nwin ns W OVERLAP) k) as [a b] eqn:Eab.
+  assert (Ha : 0 <= a /\ 0 <= b).
+  { unfold ind2save, MARGIN in Eab. injection Eab as <- <-.
+    destruct (k =? 0); destruct (k =? nwin ns W OVERLAP - 1); lia. }
+  set (f := fst (win ns W 576 k)) in *. set (l := snd (win ns W 576 k)) in *.
+  assert (Hfl : 0 <= f /\ f < l /\ l <= ns).
+  { pose proof (kept_bounds k Hk) as [B1 B2]. pose proof (kept_nonempty k Hk) as B3.
+    pose proof (valid_inside ns W 576 Hns Hov Hev k Hk) as [H1 H2]. fold f in H1. fold l in H2.
+    subst f l. unfold win in *; cbn [fst snd] in *.
+    assert (0 < s) by (unfold stride; lia). split; [nia|]. split; lia. }
+  f_equal. unfold kslice.
+  rewrite (pyslice_nat data f l) by lia.
+  replace (Z.min f (Z.of_nat (length data))) with f by lia.
+  replace (Z.min l (Z.of_nat (length data))) with l by lia.
+  rewrite pyslice_nat by lia.
+  rewrite slice_nat_length by lia.
+  replace (win ns W 576 k) with (f, l) in HC by (subst f l; now destruct (win ns W 576 k)).
+  cbv zeta in HC. unfold adj in HC.
+  destruct (a <? 0) eqn:A; [lia|]. destruct (b <? 0) eqn:B; [lia|].
+  injection HC as HC1 HC2.
+  replace (Z.of_nat (Z.to_nat l - Z.to_nat f)) with (l - f) by lia.
+  pose proof (kept_nonempty k Hk) as Hne.
+  rewrite slice_of_slice by lia.
+  f_equal; lia.
+Qed.
+
+Lemma windows_rows_closed n : forall k, 0 <= k -> k + Z.of_nat n = K ->
+  concat (windows_rows conv W (nwin ns W OVERLAP) data (wins_from ns W 576 k (S n)) k)
+  = map conv (slice_nat (Z.to_nat (vf k)) (Z.to_nat ns) data).
+Proof.
+  induction n as [|n IH]; intros k Hk HK.
+  - assert (k = K) by lia. subst k.
+    rewrite (wins_from_S ns W 576 Hns Hov).
+    pose proof (window_kept K ltac:(lia)) as HWk.
+    destruct (win ns W 576 K) as [f l] eqn:Ew. cbn [fst snd] in HWk.
+    cbn [wins_from seq map windows_rows concat]. rewrite HWk, app_nil_r. unfold kslice. now rewrite kept_last.
+  - rewrite (wins_from_S ns W 576 Hns Hov).
+    pose proof (window_kept k ltac:(lia)) as HWk.
+    destruct (win ns W 576 k) as [f l] eqn:Ew. cbn [fst snd] in HWk.
+    cbn [windows_rows concat].
+    rewrite HWk, (IH (k + 1)) by lia. rewrite <- map_app. f_equal. unfold kslice.
+    rewrite (kept_adjacent k) by lia.
+    pose proof (kept_nonempty k ltac:(lia)). pose proof (kept_bounds k ltac:(lia)).
+    pose proof (kept_adjacent k ltac:(lia)).
+    apply slice_nat_app. lia.
+Qed.
+
+Lemma kept_rows_all l : firstlast ns W OVERLAP = Some l ->
+  concat (windows_rows conv W (nwin ns W OVERLAP) data l 0) = map conv (firstn (Z.to_nat ns) data).
+Proof.
+  intros H. change OVERLAP with 576 in H.
+  rewrite (firstlast_closed ns W 576 Hns Hov) in H. injection H as <-.
+  pose proof (K_nonneg ns W 576 Hns Hov).
+  replace (Z.to_nat (K + 1)) with (S (Z.to_nat K)) by lia.
+  rewrite (windows_rows_closed (Z.to_nat K) 0) by lia.
+  rewrite kept_first. change (Z.to_nat 0) with 0%nat. now rewrite slice_nat_0.
+Qed.
+End Data.
+End Rows.
